@@ -30,7 +30,8 @@ pub fn gen_net(g: &mut Gen, heavy: bool, faultless_timing: bool) -> Value {
         (_, c) if c < 65_536 => json!([50, 5_000]),
         _ => json!([1_000, 80_000]),
     };
-    json!({"defer_ppm":defer,"yield_pct":yield_pct,"yield_ppm":yield_ppm,"yield_long_ppm":yield_long,"yield_force":[],
+    let budget = *g.pick(&[0u64, 0, 40_000, 250_000]);
+    json!({"defer_ppm":defer,"yield_pct":yield_pct,"yield_ppm":yield_ppm,"yield_long_ppm":yield_long,"yield_force":[],"budget_ppm":budget,
         "pipe":{"capacity":cap,"rcut_ppm":rcut,"wcut_ppm":wcut,"one_byte_ppm":one,"pend_ppm":pend,"lat":lat}})
 }
 
@@ -38,7 +39,7 @@ pub fn gen_net(g: &mut Gen, heavy: bool, faultless_timing: bool) -> Value {
 pub fn shrink_net(plan: &Value) -> Vec<Value> {
     let mut out = Vec::new();
     let n = &plan["net"];
-    for k in ["defer_ppm", "yield_pct", "yield_long_ppm"] {
+    for k in ["defer_ppm", "yield_pct", "yield_long_ppm", "budget_ppm"] {
         if n[k].as_u64().unwrap_or(0) != 0 {
             let mut p = plan.clone();
             p["net"][k] = json!(0);
@@ -141,7 +142,8 @@ pub fn gen_scheme_small(g: &mut Gen) -> String {
         _ => {
             let stop = g.range(0, 10);
             let mut s = format!("stop={}", stop);
-            for line in 0..stop {
+            // lines at and beyond `stop` are legal in a scheme and must have no effect
+            for line in 0..stop + 2 {
                 if g.chance(15) {
                     continue;
                 }
